@@ -19,6 +19,20 @@ class Stop(Exception):
         self.value = value
 
 
+def literal_globals(*mods):
+    """module-level names bound to literals (numbers, strings, tuples / lists / sets of them): decidable operands of configuration tests such as `method in _METHODS`"""
+    out = {}
+    for m in mods:
+        for nm, val in getattr(m, "globals", {}).items():
+            try:
+                v = ast.literal_eval(val)
+            except (ValueError, SyntaxError, TypeError):
+                continue
+            if isinstance(v, (str, int, float, tuple, list, set, frozenset)):
+                out[nm] = list(v) if isinstance(v, (tuple, set, frozenset)) else v
+    return out
+
+
 class SymExec:
     def __init__(self, env: Dict[str, Any], case: Dict[str, bool], consts: Dict[str, Any], index_atoms: Dict[str, Any],
                  funcs: Optional[Dict[str, Callable]] = None, drop_index_names=("idxi", "idxj", "ni", "nj")):
